@@ -12,6 +12,9 @@ CLAIMED = {
  "C18": ("CrossHair (z3) symbolic execution of the real dictutils.update/find/findall/findunique/findkey against reference models written from the property statement",
          "Bounded symbolic execution: update() over every combination of patch-shape tags (scalar / '__delete__' / nested dict / list with None, deletions, appends; both overwrite modes) with symbolic leaves equals the reference merge and leaves the patch unchanged; find/findall/findunique/findkey on 3 items with symbolic presence, symbolic string values (len<=2) and queries equal the reference and leave items unchanged.",
          "Trusted: CrossHair/z3. Shapes bounded (3 items, depth 3); statement-silent corners (deleting absent objects via dict marker, None beyond list end, empty lists) are not asserted.", "§4 C18"),
+ "C03": ("CrossHair (z3) symbolic execution of the real PrettyPrinter._format/format_value/Quoter on dicts built per schema slot group, symbolic values, full line list vs a rendering rule written from the property statement",
+         "Bounded symbolic execution: for every object type and every keyword slot group regenerated from schemas/*.json (quick: one keyword per distinct schema shape + every special-cased name; thorough: all keywords) the printed line list equals the lexical-class rule (strings quoted, enum words bare upper-case, numbers/booleans bare, bindings/expressions/regex(/i)/lists bare), hidden keys never printed, empty auto-created dict values refused with ValueError.",
+         "Trusted: CrossHair/z3; string holes <=3 (quick) / <=5 (thorough) code points 32..0x2FFF without quotes/backslash; strings that look like expressions in multi-alternative keywords are outside (documented). The independent reader of the lexical classes is the scanner model of C05.", "§4 C03"),
 }
 NA = {}
 
